@@ -8,16 +8,25 @@ package boolfn
 // false, node 1 is true; variables are ordered by index.
 type BDD struct {
 	nodes []node
-	uniq  map[node]int
-	memo  map[opKey]int
+	uniq  map[nodeKey]int32
+	memo  map[uint64]int32
 }
 
 type node struct{ v, lo, hi int }
-type opKey struct{ op, a, b int }
+
+// nodeKey packs a node for hashing (variables below 2^24, nodes below 2^31).
+type nodeKey struct {
+	v      int32
+	lo, hi int32
+}
+
+// MaxNodes bounds the size of one manager (about 100 bytes per node with its
+// tables).
+var MaxNodes = 12 << 20
 
 // New returns an empty manager.
 func New() *BDD {
-	return &BDD{nodes: []node{{-1, 0, 0}, {-1, 1, 1}}, uniq: map[node]int{}, memo: map[opKey]int{}}
+	return &BDD{nodes: []node{{-1, 0, 0}, {-1, 1, 1}}, uniq: make(map[nodeKey]int32, 1<<12), memo: make(map[uint64]int32, 1<<14)}
 }
 
 // Size is the number of nodes allocated.
@@ -27,12 +36,16 @@ func (m *BDD) mk(v, lo, hi int) int {
 	if lo == hi {
 		return lo
 	}
-	n := node{v, lo, hi}
-	if id, ok := m.uniq[n]; ok {
-		return id
+	k := nodeKey{int32(v), int32(lo), int32(hi)}
+	if id, ok := m.uniq[k]; ok {
+		return int(id)
 	}
-	m.nodes = append(m.nodes, n)
-	m.uniq[n] = len(m.nodes) - 1
+	if len(m.nodes) >= MaxNodes {
+		// a function that does not fit is undecided, never an out-of-memory kill
+		panic(&Unsupported{"the Boolean functions grow beyond the node budget of the BDD manager"})
+	}
+	m.nodes = append(m.nodes, node{v, lo, hi})
+	m.uniq[k] = int32(len(m.nodes) - 1)
 	return len(m.nodes) - 1
 }
 
@@ -82,9 +95,9 @@ func (m *BDD) apply(op, a, b int) int {
 	if a > b { // commutative
 		a, b = b, a
 	}
-	k := opKey{op, a, b}
+	k := uint64(op)<<62 | uint64(a)<<31 | uint64(b)
 	if r, ok := m.memo[k]; ok {
-		return r
+		return int(r)
 	}
 	v := min(m.top(a), m.top(b))
 	al, ah, bl, bh := a, a, b, b
@@ -95,7 +108,10 @@ func (m *BDD) apply(op, a, b int) int {
 		bl, bh = m.nodes[b].lo, m.nodes[b].hi
 	}
 	r := m.mk(v, m.apply(op, al, bl), m.apply(op, ah, bh))
-	m.memo[k] = r
+	if len(m.memo) > MaxNodes {
+		clear(m.memo)
+	}
+	m.memo[k] = int32(r)
 	return r
 }
 
